@@ -275,7 +275,8 @@ def _run_pgm(ctx, spec, rng):
         else:
             vs = [gen.unit(rng, d, cplx) for _ in range(n)]
             rhos = [np.outer(v, v.conj()) for v in vs]
-            inp = [v.copy() for v in vs] if r % 3 else [v.reshape(-1, 1).copy() for v in vs]
+            # flat, column and row vectors are the documented vector forms (matrix_ops.to_density_matrix)
+            inp = [[v.reshape(-1, 1).copy() for v in vs], [v.copy() for v in vs], [v.reshape(1, -1).copy() for v in vs]][(r // 4) % 3]
         p = gen.prior(rng, n, (r // 4) % 3)
         s = sum(pi * x for pi, x in zip(p, rhos))
         if np.linalg.eigvalsh(ref.herm(s)).min() > 1e-3:
